@@ -10,7 +10,7 @@ SIZES = [1, 2, 3, 5, 10, 31, 100]
 
 # ----------------------------------------------------------------------------- spaces
 
-def gen_space(r, ndims=None, sizes=None, kinds=("int", "float", "mixed"), orders=("asc", "desc", "shuf")):
+def gen_space(r, ndims=None, sizes=None, kinds=("int", "float", "mixed"), orders=("asc", "desc", "shuf"), allow_dups=False):
     nd = ndims if ndims is not None else r.choice([1, 1, 2, 2, 3, 4])
     sp = {}
     for k in range(nd):
@@ -24,6 +24,12 @@ def gen_space(r, ndims=None, sizes=None, kinds=("int", "float", "mixed"), orders
             vals = [start + j * step for j in range(n)]
         else:
             vals = [start + j * (0.5 if j % 2 else 1.0) * (j + 1) for j in range(n)]
+        if not allow_dups:
+            seen, uniq = set(), []
+            for x in vals:
+                if float(x) not in seen:
+                    seen.add(float(x)); uniq.append(x)
+            vals = uniq
         order = r.choice(orders)
         if order == "desc":
             vals = vals[::-1]
